@@ -1,4 +1,5 @@
 import SR.Proofs.SemObjects
+import SR.Proofs.SemRegister
 /-!
 # C18 — reference objects and the register harness yield well-formed, faithful histories
 
@@ -84,5 +85,140 @@ example : (vec Nat).isValidHistory [] [(.push 10, .pushOk), (.pop, .popOk (some 
 example : (vec Nat).isValidHistory [] [(.push 10, .pushOk), (.pop, .popOk none)] = false := by decide
 example : (woRegister Nat).isValidHistory none [(.write 1, .writeOk), (.write 2, .writeFail), (.read, .readOk (some 1))] = true := by decide
 example : ((vec Nat).isValidStep [1, 2] .pop (.popOk (some 1))) = (false, [1]) := by decide
+
+/-! ## the register harness
+
+`SR/Sem/RegisterClient.lean`: clients as in actor/register.rs / actor/write_once_register.rs, the
+hooks `record_invocations` / `record_returns`, the delivery rule of actor/model.rs (`deliverClient`),
+and `Step`: the harness with an *arbitrary environment* in place of servers and network, which may
+answer a request id only after the client sent it and only once; replies are delivered in any order,
+may be lost and — on a duplicating network — redelivered. `Reach cfg I h0 s`: `s` is reachable
+(from the state in which no client has started yet; `C18_init_reachable`: the executable `init`, i.e.
+what `init_states` computes, is reached by `start` steps).
+
+The theorems hold for every history type with a `HistView` (validity flag, in-flight operation and
+completed operations per thread, `on_invoke`/`on_return` acting on them as specified); the four
+instances `viewRegLin`, `viewRegSC`, `viewWoLin`, `viewWoSC` are the two testers on `Register` /
+`WORegister` with `valid = is_valid_history`, `inflight t = in_flight_by_thread[t]`,
+`done t = history_by_thread[t]` (operation and return of each entry). -/
+section harness
+open SR.Sem.RC SR.Sem.AMap
+variable {H Op Ret : Type} {cfg : Cfg} {I : Iface H Op Ret} (V : HistView I) {h0 : H}
+
+/-- hypotheses on the initial history: a fresh tester -/
+structure Fresh (V : HistView I) (h0 : H) : Prop where
+  good : V.good h0
+  valid : V.valid h0 = true
+  empty : ∀ t, V.inflight h0 t = none ∧ V.done h0 t = []
+
+/-- the recorded history stays well-formed: the tester's validity flag never drops -/
+theorem C18_wellformed (hcfg : cfg.Ok) (hf : Fresh V h0) {s : HSt H} (hr : Reach cfg I h0 s) :
+    V.valid s.sys.hist = true :=
+  (reach_inv V hcfg hf.good hf.valid hf.empty hr).valid
+
+/-- each client has an operation outstanding exactly when the tester has an in-flight operation of
+    that thread; a thread that is no (started) client has none -/
+theorem C18_one_outstanding (hcfg : cfg.Ok) (hf : Fresh V h0) {s : HSt H} (hr : Reach cfg I h0 s) (c : Nat) :
+    (∀ st, find? c s.sys.clients = some st →
+      (st.awaiting.isSome = true ↔ (V.inflight s.sys.hist c).isSome = true)) ∧
+    (find? c s.sys.clients = none → V.inflight s.sys.hist c = none) := by
+  have hI := reach_inv V hcfg hf.good hf.valid hf.empty hr
+  constructor
+  · intro st hst
+    have hc := hI.client c st hst
+    cases ha : st.awaiting with
+    | none => rw [hc.idle ha]; exact Iff.rfl
+    | some r => simp [(hc.busy r ha).2.2]
+  · intro hn; exact (hI.other c hn).infl
+
+/-- the request ids a client has used are `1·index, 2·index, …` (as many as it has sent), the
+    outstanding one is the last of them, and they are pairwise distinct because
+    `index ≥ server_count ≥ 1` -/
+theorem C18_fresh_ids (hcfg : cfg.Ok) (hf : Fresh V h0) {s : HSt H} (hr : Reach cfg I h0 s) (c : Nat) (st : CState)
+    (hst : find? c s.sys.clients = some st) :
+    ridsOf c s.log = (List.range (if st.awaiting.isSome then st.opCount else st.opCount - 1)).map (fun j => (j + 1) * c) ∧
+    (ridsOf c s.log).Nodup ∧ 1 ≤ cfg.nServers ∧ cfg.nServers ≤ c ∧
+    (∀ r, st.awaiting = some r → r = st.opCount * c ∧ (ridsOf c s.log).getLast? = some r) := by
+  have hI := reach_inv V hcfg hf.good hf.valid hf.empty hr
+  have hc := hI.client c st hst
+  have hc1 : 1 ≤ c := Nat.le_trans hcfg.servers hc.idx
+  refine ⟨hc.rids, ?_, hcfg.servers, hc.idx, ?_⟩
+  · rw [hc.rids]
+    generalize (if st.awaiting.isSome then st.opCount else st.opCount - 1) = n
+    induction n with
+    | zero => simp
+    | succ n ih =>
+      rw [List.range_succ, List.map_append, List.nodup_append]
+      refine ⟨ih, by simp, ?_⟩
+      intro a ha b hb
+      simp only [List.map_cons, List.map_nil, List.mem_singleton] at hb
+      simp only [List.mem_map, List.mem_range] at ha
+      obtain ⟨j, hj, rfl⟩ := ha
+      subst hb
+      intro hab
+      have := Nat.eq_of_mul_eq_mul_right (by omega) hab
+      omega
+  · intro r ha
+    obtain ⟨h1, h2, _⟩ := hc.busy r ha
+    refine ⟨h1, ?_⟩
+    rw [hc.rids, ha]
+    simp only [Option.isSome_some, if_true]
+    obtain ⟨n, hn⟩ : ∃ n, st.opCount = n + 1 := ⟨st.opCount - 1, by omega⟩
+    rw [hn, List.range_succ, List.map_append]
+    simp [h1, hn]
+
+/-- the recorded history of every client mirrors its client-visible calls and replies: the completed
+    `(op, ret)` pairs are the `Put`/`Get` it sent paired with the `PutOk`/`PutFail`/`GetOk` it accepted,
+    in order, and the in-flight operation is its unanswered request; other threads have nothing -/
+theorem C18_mirror (hcfg : cfg.Ok) (hf : Fresh V h0) {s : HSt H} (hr : Reach cfg I h0 s) (c : Nat) :
+    (V.done s.sys.hist c, V.inflight s.sys.hist c) = mirror I cfg.wo c s.log ∧
+    ((find? c s.sys.clients).isNone = true → V.done s.sys.hist c = [] ∧ V.inflight s.sys.hist c = none) := by
+  have hI := reach_inv V hcfg hf.good hf.valid hf.empty hr
+  cases hst : find? c s.sys.clients with
+  | some st => exact ⟨(hI.client c st hst).mirr, by simp⟩
+  | none =>
+    have ho := hI.other c hst
+    exact ⟨by rw [ho.mirr, ho.done, ho.infl], fun _ => ⟨ho.done, ho.infl⟩⟩
+
+/-- on an ordered network a delivery the client ignores would still be a step that runs the
+    `record_returns` hook — under an at-most-once environment it never happens -/
+theorem C18_no_ignored_delivery (hcfg : cfg.Ok) (hf : Fresh V h0) {s : HSt H} (hr : Reach cfg I h0 s)
+    {c : Nat} {m : RMsg} {cl : Client} {st : CState} {sys' : RSys H} (hpool : (c, m) ∈ s.pool)
+    (hfind : find? c s.sys.clients = some st) (hmsg : cl.onMsg cfg.wo c st m = none) :
+    deliverClient I cfg.wo cfg.ordered cl s.sys c m ≠ some sys' :=
+  fun hdel => no_ignored V hcfg (reach_inv V hcfg hf.good hf.valid hf.empty hr) hpool hfind hmsg hdel
+
+/-- what `init_states` computes for clients and history is a reachable state of `Step` -/
+theorem C18_init_reachable (sys : RSys H) (h : RC.init I h0 cfg.actors = some sys) :
+    ∃ s, Reach cfg I h0 s ∧ s.sys = sys ∧ s.pool = [] := init_is_reachable cfg I h0 sys h
+
+/-- the four harness flavours start from a fresh tester -/
+theorem C18_fresh_instances (v0 : Nat) (w0 : Option Nat) :
+    Fresh viewRegLin (Tester.new v0) ∧ Fresh viewRegSC (SCTester.new v0) ∧
+    Fresh viewWoLin (Tester.new w0) ∧ Fresh viewWoSC (SCTester.new w0) :=
+  ⟨⟨⟨sorted_nil, sorted_nil⟩, rfl, fun _ => ⟨rfl, rfl⟩⟩, ⟨⟨sorted_nil, sorted_nil⟩, rfl, fun _ => ⟨rfl, rfl⟩⟩,
+   ⟨⟨sorted_nil, sorted_nil⟩, rfl, fun _ => ⟨rfl, rfl⟩⟩, ⟨⟨sorted_nil, sorted_nil⟩, rfl, fun _ => ⟨rfl, rfl⟩⟩⟩
+
+end harness
+
+/-! non-vacuity: one server, one client with `put_count = 1`, linearizability tester on `Register`;
+the client starts (Put sent, recorded), the environment answers, the reply is delivered. -/
+section example_run
+open SR.Sem.RC SR.Sem.AMap
+
+def cfg1 : Cfg := { wo := false, ordered := false, dup := false, nServers := 1, clients := [{ putCount := 1, serverCount := 1 }] }
+
+example : cfg1.Ok := ⟨Nat.le_refl 1, by intro c hc; simp [cfg1] at hc; subst hc; rfl, by intro h; cases h⟩
+
+example : (RC.init regLin (Tester.new 63) cfg1.actors).map (fun s => (s.clients, s.hist.inflight)) =
+    some ([(1, { awaiting := some 1, opCount := 1 })], [(1, ([], .write 65))]) := by rfl
+
+example : ((RC.init regLin (Tester.new 63) cfg1.actors).bind fun s =>
+      deliverClient regLin false false { putCount := 1, serverCount := 1 } s 1 (.putOk 1)).map
+      (fun s => (s.clients, s.hist.hist, s.hist.inflight, s.hist.valid)) =
+    some ([(1, { awaiting := some 2, opCount := 2 })], [(1, [([], .write 65, .writeOk)])], [(1, ([], .read))], true) := by
+  rfl
+
+end example_run
 
 end SR.C18
